@@ -92,6 +92,9 @@ def runHelper (name params streams : String) : String :=
       | "Operate3" =>
           let r := Stream.operate3M (fun x y z => x * 5 + y * 3 + z) a b c
           [a.length - r.2.1.length, b.length - r.2.2.1.length, c.length - r.2.2.2.length]
+      | "OperateShared" => [a.length]
+      | "Operate3Shared" | "Operate3SharedLast" => [a.length, b.length]
+      | "DivideI" => [a.length, b.length]
       | "Head" => [a.length - (Stream.headM (p 0) a).2.length]
       | "First" => [a.length - (Stream.firstM (p 0) a).2.length]
       | "Seq" => []
@@ -126,6 +129,13 @@ def runHelper (name params streams : String) : String :=
     | "Sign" => one (Stream.mapM (fun x => if x > 0 then 1 else if x < 0 then -1 else 0) a)
     | "KeepPositives" => one (Stream.mapM (fun x => if x > 0 then x else 0) a)
     | "KeepNegatives" => one (Stream.mapM (fun x => if x < 0 then x else 0) a)
+    | "DivideI" => one (Stream.operateM Int.tdiv a b).1
+    | "DivideByI" => one (Stream.mapM (fun x => Int.tdiv x (pi 0)) a)
+    | "ChangeRatioI" => one (Stream.changeRatioM (· - ·) Int.tdiv (p 0) a)
+    | "ChangePercentI" => one (Stream.changePercentM (· - ·) Int.tdiv (· * ·) 100 (p 0) a)
+    | "OperateShared" => one (Stream.operateM (fun x y => x * 3 + y) a a).1
+    | "Operate3Shared" => one (Stream.operate3M (fun x y z => x * 5 + y * 3 + z) a a b).1
+    | "Operate3SharedLast" => one (Stream.operate3M (fun x y z => x * 5 + y * 3 + z) a b b).1
     | _ => "ERR unknown-helper"
   | _, _ => "ERR parse"
 
